@@ -43,7 +43,38 @@ def rule_right_inverse(repo: Repo, rep: Report) -> int:
         tests = [unparse(s.test) for s in stmts_of(lp.body) if isinstance(s, ast.If)]
         if unparse(lp.iter) == "range(k)" and "col[i] != 1 or col.sum() != 1" in tests and any(unparse(s) == "col = matrix[:, i]" for s in stmts_of(lp.body)):
             ok = True
-    rep.expect(ok, "VERIFIED-RETURN", fi, "identity-prefix test: for i in range(k): column i must be e_i", "the shortcut is taken only if the first k columns are exactly the identity", "the identity-prefix shortcut is not guarded by a column-by-column identity test")
+    wrong_pred = False
+    pred_detail = ""
+    if not ok:
+        # evaluate the statements that define `is_systematic` on sample matrices with the checker's own arithmetic:
+        # the flag must be True exactly when the leading k x k block is the identity
+        from ..constfold import Unfoldable
+        from ..frag import FragRaise, FragReturn, run_fragment
+
+        guard = next((s_ for s_ in fi.body if isinstance(s_, ast.If) and unparse(s_.test) == "is_systematic"), None)
+        if guard is not None:
+            prefix = fi.body[: fi.body.index(guard)]
+            prefix = [s_ for s_ in prefix if not (isinstance(s_, ast.Expr) and isinstance(s_.value, ast.Constant))]
+            samples = [
+                ([[1, 0, 1, 1], [0, 1, 0, 1]], True), ([[0, 1, 1, 1], [1, 0, 0, 1]], False), ([[1, 1, 0, 1], [0, 1, 1, 0]], False),
+                ([[1, 0, 0, 1, 1], [0, 1, 0, 1, 0], [0, 0, 1, 0, 1]], True), ([[0, 1, 0, 1, 1], [0, 0, 1, 1, 0], [1, 0, 0, 0, 1]], False),
+                ([[1, 0, 0, 1, 1], [0, 0, 1, 1, 0], [0, 1, 0, 0, 1]], False), ([[1, 0, 1], [1, 0, 1]], False), ([[2, 0, 1], [0, 1, 1]], False),
+            ]
+            try:
+                for mat, want in samples:
+                    env_ = run_fragment(prefix, {"matrix": mat})
+                    got = env_.get("is_systematic")
+                    if isinstance(got, list) or got is None:
+                        raise Unfoldable("flag is not a scalar")
+                    if bool(got) != want:
+                        wrong_pred = True
+                        pred_detail = f"for the generator {mat} the identity-prefix flag is {bool(got)} (expected {want}): the shortcut [I; 0] is returned for a leading block that is not the identity, so G.R != I and the extracted message is a permutation / mixture of the message bits"
+                        break
+                else:
+                    ok = True
+            except (Unfoldable, FragRaise, FragReturn, IndexError, TypeError, KeyError):
+                pass
+    rep.shape(ok, wrong_pred, "VERIFIED-RETURN", fi, "identity-prefix test: the shortcut is taken iff the first k columns are exactly the identity" + (f" - {pred_detail}" if pred_detail else ""), "the shortcut is taken only if the first k columns are exactly the identity", "the identity-prefix shortcut is not guarded by a column-by-column identity test")
     return n + 1
 
 
@@ -154,6 +185,10 @@ def run(repo: Repo, rep: Report, tier: str) -> None:
             n += rule_check_layout(rep, repo.func(f_, q_))
         except AnalysisError:
             rep.note(f"{q_} not present on this tree")
+    # the check matrix of the generic encoders is the exact GF(2) null space of G (rule shared with C01)
+    from .c01 import rule_null_space
+
+    n += rule_null_space(repo, rep)
     # memoised decoding helpers shared between encoder objects must be keyed by the code they belong to
     from .c20 import rule_cache_key
 
